@@ -21,6 +21,22 @@
 
 static const size_t KiB = 1024, MiB = 1024 * 1024;
 
+// after every allocator call a store that is still in the thread's simulated store buffer (vf_sched, --tso) becomes visible: the harness' own
+// signalling (std::atomic, not hooked) must not overtake the allocator's stores -- real hardware keeps the stores of one thread in order
+#define VF_RET(call)            __extension__({ auto _vf_r = (call); vf_flush(); _vf_r; })
+#define VF_VOID(call)           do { call; vf_flush(); } while (0)
+#define mi_malloc(n)            VF_RET((mi_malloc)(n))
+#define mi_zalloc(n)            VF_RET((mi_zalloc)(n))
+#define mi_heap_malloc(h, n)    VF_RET((mi_heap_malloc)((h), (n)))
+#define mi_heap_new()           VF_RET((mi_heap_new)())
+#define mi_heap_new_in_arena(a) VF_RET((mi_heap_new_in_arena)(a))
+#define mi_heap_visit_blocks(h, a, v, c) VF_RET((mi_heap_visit_blocks)((h), (a), (v), (c)))
+#define mi_free(p)              VF_VOID((mi_free)(p))
+#define mi_collect(f)           VF_VOID((mi_collect)(f))
+#define mi_heap_collect(h, f)   VF_VOID((mi_heap_collect)((h), (f)))
+#define mi_heap_delete(h)       VF_VOID((mi_heap_delete)(h))
+#define mi_thread_done()        VF_VOID((mi_thread_done)())
+
 // ------------------------------------------------------------------------------------------------
 // configuration / globals
 // ------------------------------------------------------------------------------------------------
@@ -588,9 +604,9 @@ static void result_body(FILE* f) {
           (unsigned long long)g_recvs.load(), (unsigned long long)g_verified.load(), (unsigned long long)g_collects.load(), (unsigned long long)g_thread_starts.load(), (unsigned long long)g_thread_exits.load(),
           (unsigned long long)g_heap_deletes.load(), (unsigned long long)g_claims.load(), (unsigned long long)g_claim_fail.load(), (unsigned long long)g_events, (unsigned long long)g_max_live_replay,
           g_abandoned_left, g_final_checked, g_probe_single, g_probe_whole, (unsigned long long)g_subproc_checked, g_arena_inuse_end);
-  fprintf(f, "\"sched\":{\"mode\":%d,\"policy\":%d,\"points\":%llu,\"switches\":%llu,\"forced\":%llu,\"spurious_cas\":%llu,\"delays\":%llu,\"hash\":\"%016llx\",\"budget_exceeded\":%d,\"threads_created\":%d},",
+  fprintf(f, "\"sched\":{\"mode\":%d,\"policy\":%d,\"points\":%llu,\"switches\":%llu,\"forced\":%llu,\"spurious_cas\":%llu,\"delays\":%llu,\"hash\":\"%016llx\",\"budget_exceeded\":%d,\"threads_created\":%d,\"delayed_stores\":%llu,\"loads_overtaking\":%llu},",
           C.sched.mode, C.sched.policy, (unsigned long long)st.points, (unsigned long long)st.switches, (unsigned long long)st.forced_switches, (unsigned long long)st.spurious, (unsigned long long)st.delays,
-          (unsigned long long)st.sched_hash, st.budget_exceeded, st.threads_created);
+          (unsigned long long)st.sched_hash, st.budget_exceeded, st.threads_created, (unsigned long long)st.delayed_stores, (unsigned long long)st.loads_overtaking);
   fputs("\"funcs\":{", f); vf_sched_dump_funcs(f, 14); fputs("},", f);
   if (C.scenario == "tiny") {
     fprintf(f, "\"tiny\":{\"prog\":%llu,\"desc\":\"%s\",\"o_phase1\":%ld,\"o_phase2\":%ld,\"script_fired\":%d,\"points\":[", (unsigned long long)g_tiny_prog, g_tiny_desc.c_str(), g_tiny_o_phase1, g_tiny_o_phase2, st.script_fired);
@@ -670,6 +686,7 @@ int main(int argc, char** argv) {
   C.sched.p_hot_den = (unsigned)vf_getarg_ll(argc, argv, "--p-hot", 2);
   C.sched.p_spurious_den = (unsigned)vf_getarg_ll(argc, argv, "--spurious", 8);
   C.sched.delay_den = (unsigned)vf_getarg_ll(argc, argv, "--delay-den", 64);
+  C.sched.tso_den = (unsigned)vf_getarg_ll(argc, argv, "--tso", 0);
   C.sched.pct_depth = (int)vf_getarg_ll(argc, argv, "--pct-depth", 2);
   C.sched.pct_steps = (uint64_t)vf_getarg_ll(argc, argv, "--pct-steps", 200000);
   C.sched.step_budget = (uint64_t)vf_getarg_ll(argc, argv, "--step-budget", 400000000ll);
